@@ -2,6 +2,7 @@
 """tools/mutate.py <relpath> <old> <new> <Cnn>[,Cmm] [tier]  — apply a one-off textual mutation to /repo,
 run the checks, and ALWAYS restore the file. Prints DETECTED/MISSED per check."""
 import subprocess, sys, os
+os.environ["VERIF_EVIDENCE_DIR"] = "/tmp/verif-evidence-scratch"
 rel, old, new, ids = sys.argv[1:5]
 tier = sys.argv[5] if len(sys.argv) > 5 else "quick"
 path = os.path.join("/repo", rel)
